@@ -292,6 +292,7 @@ def check(ix, rep):
             rep.analysed(_de)
             _ne += _te.check_entry_verbatim(ix, rep, _de, _m.kind)
     rep.floor('data-entry stores', _ne, 2)
+    rep.floor('specification wrappers handing the data on', _te.check_wrapper_verbatim(ix, rep), 2)
     # the two monitors are fed the same lists: neither may write into what it was handed (an operand overwritten in place is read changed by
     # the next operator of the same formula)
     from sa.rules import ownrule as _own
